@@ -77,7 +77,7 @@ class C06(Check):
     required_classes = [
         'request/valid', 'request/invalid', 'response/valid', 'response/invalid', 'error/valid', 'error/invalid',
         'batch_request/valid', 'batch_request/invalid', 'batch_request/duplicate', 'batch_response/valid',
-        'batch_response/duplicate', 'batch_response/batch-error', 'history/rejected-then-accepted',
+        'batch_response/duplicate', 'batch_response/batch-error', 'history/rejected-then-accepted', 'deep/accepted',
     ]
 
     # ---- generation -----------------------------------------------------------------------------
@@ -206,6 +206,7 @@ class C06(Check):
             {'kind': 'batch_request', 'value': [{'jsonrpc': '2.0', 'id': 1, 'method': 'a'}, {'jsonrpc': '2.0', 'id': '1', 'method': 'b'}]},
             {'kind': 'batch_response', 'value': {'jsonrpc': '2.0', 'id': None, 'error': {'code': -32600, 'message': 'Invalid Request'}}},
             {'kind': 'batch_response', 'value': {'jsonrpc': '2.0', 'id': None, 'result': 0, 'error': {'code': -32600, 'message': 'x'}}},
+            *[{'kind': 'deep', 'carrier': c, 'depth': d, 'shape': s} for c in ('request', 'batch_request', 'response', 'error') for d in (100, 400, 900) for s in ('list', 'dict', 'mixed')],
             {'kind': 'history', 'cls': 'request', 'init': [1], 'ops': [['extend', [2, 1]], ['append', 2]]},
             {'kind': 'history', 'cls': 'response', 'init': [], 'ops': [['extend', [0, 0]], ['append', 0], ['append', 0]]},
         ]
@@ -216,6 +217,8 @@ class C06(Check):
         kind = spec['kind']
         if kind == 'history':
             return self._run_history(spec)
+        if kind == 'deep':
+            return self._run_deep(spec)
         v = spec['value']
         fn = {
             'request': pjrpc.Request.from_json, 'response': pjrpc.Response.from_json, 'error': JsonRpcError.from_json,
@@ -231,6 +234,35 @@ class C06(Check):
         verdict, discs = getattr(self, f"_judge_{kind}")(v, got, exc)
         nontrivial = deviates(kind, v) if kind in ('request', 'response', 'error') else True
         return Outcome(discs, nontrivial, [f"{kind}/{verdict}"])
+
+    def _run_deep(self, spec: Any) -> Outcome:
+        """a valid message whose payload (params / result / error data) is nested hundreds of levels deep - a JSON value the json module
+        decodes without trouble: it is accepted, and the payload the message carries is that value"""
+        depth, shape, carrier = spec['depth'], spec['shape'], spec['carrier']
+        payload = jg.nested(depth, 1, shape)
+        if carrier == 'request':
+            doc: Any = {'jsonrpc': '2.0', 'id': 1, 'method': 'm', 'params': payload if isinstance(payload, (list, dict)) else [payload]}
+            fn, get = pjrpc.Request.from_json, (lambda m: m.params)
+        elif carrier == 'batch_request':
+            doc = [{'jsonrpc': '2.0', 'id': 1, 'method': 'm', 'params': payload}]
+            fn, get = pjrpc.BatchRequest.from_json, (lambda m: m[0].params)
+        elif carrier == 'response':
+            doc = {'jsonrpc': '2.0', 'id': 1, 'result': payload}
+            fn, get = pjrpc.Response.from_json, (lambda m: m.result)
+        else:
+            doc = {'code': 5, 'message': 'm', 'data': payload}
+            fn, get = JsonRpcError.from_json, (lambda m: m.data)
+        where = f"{carrier} with a payload nested {depth} levels ({shape})"
+        try:
+            msg = fn(doc)
+        except Exception as e:
+            return Outcome([Disc(f"C06/{carrier}/wrong-exception/{type(e).__name__}", f"{type(e).__name__}: {str(e)[:200]} for a valid {where}")], True, ['deep/crash'])
+        got, n = get(msg), 0
+        while isinstance(got, (list, dict)) and got:      # iterative descent (no recursion in the harness)
+            got = got[0] if isinstance(got, list) else next(iter(got.values()))
+            n += 1
+        discs = [] if (n == depth and got == 1) else [Disc(f"C06/{carrier}/deep-payload-changed", f"descended {n} levels to {got!r} | {where}")]
+        return Outcome(discs, True, ['deep/accepted', f'deep/{carrier}'])
 
     # each judge returns (class label, discrepancies)
 
